@@ -584,6 +584,41 @@ def make_kw(desc):
                 raise excs[en](f"fault-{kind}-{at}")
             return base(*a)
         kw[tgt] = faulty
+    if o.get("sabotage") and callable(kw.get("jac")) and kw.get("update_fun_def") is None and kw.get("gradient_scaler") is None:
+        # directed scenario (memory reboot with more than one stored point): a first pass finds the first iteration whose update
+        # is rejected by the curvature test (the pair count does not grow) and the number of objective calls made by then; in the
+        # run that is recorded the objective returns huge values on the next maxls calls, so that exactly that line search fails.
+        # The answers depend on the call index, not only on the point: recordings in which a point got two answers are skipped.
+        from lbfgsb import minimize_lbfgsb
+        probe = dict(calls=0, at=None, prev=0)
+        f_plain = kw["fun"]
+
+        def f_count(x):
+            probe["calls"] += 1
+            return f_plain(x)
+
+        def cb_probe(xk, st_):
+            sk_ = np.asarray(st_.hess_inv.sk)
+            m_ = 0 if (sk_.shape[0] == 1 and not sk_.any()) else sk_.shape[0]
+            if probe["at"] is None and m_ >= 1 and m_ == probe["prev"] and m_ < kw.get("maxcor", 10):
+                probe["at"] = probe["calls"]
+            probe["prev"] = m_
+            return False
+        try:
+            minimize_lbfgsb(**dict({k_: v_ for k_, v_ in kw.items() if k_ not in ("callback", "fun")}, fun=f_count, callback=cb_probe))
+        except Exception:  # noqa
+            pass
+        if probe["at"] is not None:
+            win = (probe["at"], probe["at"] + int(kw.get("maxls", 20)))
+            cnt2 = {"k": 0}
+
+            def f_sab(x):
+                cnt2["k"] += 1
+                v = f_plain(x)
+                if win[0] < cnt2["k"] <= win[1]:
+                    return float(v) + 1e6 * (1.0 + abs(float(v)))
+                return v
+            kw["fun"] = f_sab
     return P, kw
 
 
@@ -633,6 +668,9 @@ def gen_descs(tier, rng, focus=None):
                 opts["fault"][0] = "f"
             cfg.update(maxiter=min(cfg["maxiter"], 8))
             spec["nmax"] = 5
+        if mixed and fam in gen.NONCONVEX and "upd" not in opts and "scaler" not in opts and "fault" not in opts and rng.random() < 0.5:
+            opts["sabotage"] = True
+            cfg.update(maxls=int(rng.integers(1, 4)), maxiter=int(rng.integers(8, 25)), maxfun=int(rng.integers(60, 200)), ftol=0.0)
         restart = int(rng.integers(1, 5)) if (rng.random() < 0.25 or focus == "restart") else 0
         d = dict(spec=spec, cfg=cfg, opts=opts, restart=restart, red=int(rng.integers(0, 3)))
         if restart and rng.random() < 0.4:
